@@ -219,7 +219,7 @@ func runC03Case(e *Env, lp *vk.ListenerPool, c xferCase) xferOutcome {
 			Action: func(string) { x1.AbortSender() }}
 		cfg1.WatchdogMs = 15000
 		_ = vk.RunTransfer(context.Background(), cfg1, lp, src, outDir)
-		transfer.FlushAllFlushers()
+		transfer.VerifRetireSidecars(outDir)
 		late = c.History == "partial+late-report"
 	case "complete":
 		cfg1 := c.Cfg
